@@ -155,6 +155,12 @@ impl<R> PMTiles<R> {
     }
 }
 
+/// Returns `true` if `x`/`y`/`z` denote a tile: a zoom the 64-bit tile id space
+/// can hold (0 to 31) and `x` and `y` inside that zoom's `2^z` x `2^z` grid.
+const fn is_tile_coordinate(x: u64, y: u64, z: u8) -> bool {
+    z < 32 && x < (1u64 << z) && y < (1u64 << z)
+}
+
 impl<R: Read + Seek> PMTiles<R> {
     /// Get data of a tile by its id.
     ///
@@ -179,6 +185,10 @@ impl<R: Read + Seek> PMTiles<R> {
     /// # Errors
     /// See [`get_tile_by_id`](Self::get_tile_by_id) for details on possible errors.
     pub fn get_tile(&mut self, x: u64, y: u64, z: u8) -> Result<Option<Vec<u8>>> {
+        if !is_tile_coordinate(x, y, z) {
+            return Ok(None);
+        }
+
         self.get_tile_by_id(tile_id(z, x, y))
     }
 }
@@ -212,6 +222,10 @@ impl<R: AsyncRead + AsyncReadExt + Send + Unpin + AsyncSeekExt> PMTiles<R> {
     /// # Errors
     /// See [`get_tile_by_id_async`](Self::get_tile_by_id_async) for details on possible errors.
     pub async fn get_tile_async(&mut self, x: u64, y: u64, z: u8) -> Result<Option<Vec<u8>>> {
+        if !is_tile_coordinate(x, y, z) {
+            return Ok(None);
+        }
+
         self.get_tile_by_id_async(tile_id(z, x, y)).await
     }
 }
